@@ -51,6 +51,18 @@ Definition expected_sites : list (string * string * list nat) :=
    ("tracing-subscriber/src/reload.rs", "callsite_enabled", [81]);             (* PRgCall / PWrAskCall (as a filter) *)
    ("tracing-subscriber/src/reload.rs", "modify", [80; 82])].                  (* PRlLock ; PRlGap *)
 
+(** LinkedList::push: the head is loaded once before the loop; INSIDE the retry loop the registration's `next` is (re)linked to
+    the head just seen and the duplicate assertion is (re)checked, then the CAS; a failed CAS continues with the head it
+    observed.  This is what [PRgPushHead] / [PRgPushCas] do: the retry goes to [PRgPushCas cs (st_list s)] (next re-linked to
+    the CURRENT list, [chk] re-evaluated), and a successful CAS makes the list [cs :: l0] with [l0] the list last linked
+    ([push_cas_exact]: equal to the current list).  Hoisting the link out of the loop would link to a stale head on a retry and
+    drop the registrations pushed in between. *)
+Definition expected_push_shape : list string :=
+  ["load-head"; "loop"; "store-next"; "assert-ne"; "yield-44"; "cas-head"; "reload-on-failure"].
+
+Theorem source_push_shape : gen_push_shape = [] \/ gen_push_shape = expected_push_shape.
+Proof. vm_compute. first [left; reflexivity | right; reflexivity]. Qed.
+
 Theorem source_points : gen_yield_ids = [] \/ gen_yield_ids = model_yield_ids.
 Proof. vm_compute. first [left; reflexivity | right; reflexivity]. Qed.
 
